@@ -12,7 +12,11 @@
 //	        first, extending a prefix only when the session asked for more input;
 //	real    the real sasl.Plain / sasl.ScramSha1 / sasl.ScramSha256 run on both ends
 //	        (the driver owns the counterpart's sasl.Negotiator) and the counterpart
-//	        deviates at one step.
+//	        deviates at one step;
+//	shared  two sessions (scenarios of the families above with the same role, mechanisms
+//	        and script) are negotiated, one after the other or interleaved, with ONE
+//	        feature value (and one xmpp.Negotiator): every session must behave exactly as
+//	        it does when it is negotiated alone with a feature value of its own.
 package main
 
 import (
@@ -64,6 +68,11 @@ type Scenario struct {
 	Peer   []Item    `json:"peer"`   // script family: the peer's items, in order
 	Dev    string    `json:"dev"`    // real family: the counterpart's deviation
 	PwOK   bool      `json:"pwok"`   // real family: the counterpart knows the right password
+	// shared family: the sessions negotiated with one feature value and the schedule
+	// ("seq": one after the other, "alt": alternating at every read on an empty transport,
+	// "nest": the second session runs while the first one waits for its first SASL item)
+	Sessions []Scenario `json:"sessions,omitempty"`
+	Sched    string     `json:"sched,omitempty"`
 }
 
 // Pool is what EmitSASL.tla emits.
@@ -79,7 +88,17 @@ type Pool struct {
 
 var errScripted = errors.New("vt: scripted mechanism error")
 
+// featCtx is what a feature value (its mechanisms, its permission callback, the wrapper
+// around its Negotiate function) knows about the driver: the session on whose behalf the
+// library is running right now. Sessions that share a feature value share the featCtx.
+type featCtx struct {
+	cur    *run
+	script []StepOut
+}
+
 type run struct {
+	fc   *featCtx
+	park func() // shared family: called at every read on an empty transport, before the peer acts
 	sc   Scenario
 	lg   *vt.Log
 	conn *vt.Conn
@@ -127,33 +146,33 @@ type wcache struct {
 	inner interface{}
 }
 
-func (r *run) logStep(name string, i int, more bool, err error) {
-	r.lg.Add(vt.Ev{"ev": "step", "m": name, "i": i, "more": more && err == nil, "err": err != nil})
+func (fc *featCtx) logStep(name string, i int, more bool, err error) {
+	fc.cur.lg.Add(vt.Ev{"ev": "step", "m": name, "i": i, "more": more && err == nil, "err": err != nil})
 }
 
-func (r *run) scripted(name string) sasl.Mechanism {
+func (fc *featCtx) scripted(name string) sasl.Mechanism {
 	step := func(n *sasl.Negotiator, i int) (bool, []byte, interface{}, error) {
 		out := StepOut{Err: true, Perm: "none"}
-		if i < len(r.sc.Script) {
-			out = r.sc.Script[i]
+		if i < len(fc.script) {
+			out = fc.script[i]
 		}
 		if out.Perm != "none" {
-			r.verdict = out.Perm == "yes"
+			fc.cur.verdict = out.Perm == "yes"
 			ok := n.Permissions()
 			if !ok {
-				r.logStep(name, i, false, sasl.ErrAuthn)
+				fc.logStep(name, i, false, sasl.ErrAuthn)
 				return false, nil, wcache{i: i + 1}, sasl.ErrAuthn
 			}
 		}
 		if out.Err {
-			r.logStep(name, i, false, errScripted)
+			fc.logStep(name, i, false, errScripted)
 			return false, nil, wcache{i: i + 1}, errScripted
 		}
 		var resp []byte
 		if i%2 == 0 {
 			resp = []byte(fmt.Sprintf("r%d", i))
 		}
-		r.logStep(name, i, out.More, nil)
+		fc.logStep(name, i, out.More, nil)
 		return out.More, resp, wcache{i: i + 1}, nil
 	}
 	return sasl.Mechanism{
@@ -170,18 +189,18 @@ func (r *run) scripted(name string) sasl.Mechanism {
 }
 
 // logged wraps a real mechanism so that every invocation is recorded.
-func (r *run) logged(m sasl.Mechanism) sasl.Mechanism {
+func (fc *featCtx) logged(m sasl.Mechanism) sasl.Mechanism {
 	return sasl.Mechanism{
 		Name: m.Name,
 		Start: func(n *sasl.Negotiator) (bool, []byte, interface{}, error) {
 			more, resp, cache, err := m.Start(n)
-			r.logStep(m.Name, 0, more, err)
+			fc.logStep(m.Name, 0, more, err)
 			return more, resp, wcache{i: 1, inner: cache}, err
 		},
 		Next: func(n *sasl.Negotiator, challenge []byte, data interface{}) (bool, []byte, interface{}, error) {
 			c, _ := data.(wcache)
 			more, resp, cache, err := m.Next(n, challenge, c.inner)
-			r.logStep(m.Name, c.i, more, err)
+			fc.logStep(m.Name, c.i, more, err)
 			return more, resp, wcache{i: c.i + 1, inner: cache}, err
 		},
 	}
@@ -192,7 +211,7 @@ func (r *run) logged(m sasl.Mechanism) sasl.Mechanism {
 // the mechanism given to the library delegates every step to a real sasl.Negotiator
 // that has a credential store, and consults the session's permission callback when the
 // proof has been verified.
-func (r *run) storeBacked(m sasl.Mechanism) sasl.Mechanism {
+func (fc *featCtx) storeBacked(m sasl.Mechanism) sasl.Mechanism {
 	return sasl.Mechanism{
 		Name:  m.Name,
 		Start: m.Start,
@@ -305,6 +324,9 @@ func (r *run) closeIn() {
 func (r *run) starve() {
 	if r.closed {
 		return
+	}
+	if r.park != nil {
+		r.park()
 	}
 	if r.saslEnd {
 		// after the feature returned: let a successful negotiation run to its end
@@ -632,11 +654,9 @@ func (r *run) counterClient(w *wrote) {
 
 // ---------------------------------------------------------------- one run
 
-func runScenario(sc Scenario) (evs []vt.Ev, starved bool) {
-	r := &run{sc: sc, lg: &vt.Log{StopAfter: "return"}, conn: vt.NewConn()}
-	r.conn.React = r.react
-	r.conn.Starve = r.starve
-
+// buildFeature builds the feature value of a scenario (role, family, mechanisms, script) and
+// the Negotiator that offers it. Everything it hands to the library reports to fc.cur.
+func buildFeature(fc *featCtx, sc Scenario) xmpp.Negotiator {
 	var mechs []sasl.Mechanism
 	for _, n := range sc.Local {
 		if sc.Fam == "real" {
@@ -645,11 +665,11 @@ func runScenario(sc Scenario) (evs []vt.Ev, starved bool) {
 				panic("unknown real mechanism " + n)
 			}
 			if sc.Role == "server" && strings.HasPrefix(n, "SCRAM-") {
-				m = r.storeBacked(m)
+				m = fc.storeBacked(m)
 			}
-			mechs = append(mechs, r.logged(m))
+			mechs = append(mechs, fc.logged(m))
 		} else {
-			mechs = append(mechs, r.scripted(n))
+			mechs = append(mechs, fc.scripted(n))
 		}
 	}
 	var feat xmpp.StreamFeature
@@ -657,6 +677,7 @@ func runScenario(sc Scenario) (evs []vt.Ev, starved bool) {
 		feat = xmpp.SASL("", password, mechs...)
 	} else {
 		feat = xmpp.SASLServer(func(n *sasl.Negotiator) bool {
+			r := fc.cur
 			v := r.verdict
 			if sc.Fam == "real" {
 				u, p, _ := n.Credentials()
@@ -665,21 +686,35 @@ func runScenario(sc Scenario) (evs []vt.Ev, starved bool) {
 			r.lg.Add(vt.Ev{"ev": "perm", "v": v})
 			return v
 		}, mechs...)
-		if sc.Fam == "real" {
-			r.startClient()
-		}
 	}
 	inner := feat.Negotiate
 	feat.Negotiate = func(ctx context.Context, s *xmpp.Session, data interface{}) (xmpp.SessionState, io.ReadWriter, error) {
 		mask, rw, err := inner(ctx, s, data)
+		r := fc.cur
 		r.lg.Add(vt.Ev{"ev": "negret", "ok": err == nil, "authn": mask&xmpp.Authn != 0})
 		r.saslEnd = true
 		r.saslOK = err == nil
 		return mask, rw, err
 	}
-	neg := xmpp.NewNegotiator(func(*xmpp.Session, *xmpp.StreamConfig) xmpp.StreamConfig {
-		return xmpp.StreamConfig{Features: []xmpp.StreamFeature{feat}}
+	list := []xmpp.StreamFeature{feat}
+	return xmpp.NewNegotiator(func(*xmpp.Session, *xmpp.StreamConfig) xmpp.StreamConfig {
+		return xmpp.StreamConfig{Features: list}
 	})
+}
+
+func newRun(fc *featCtx, sc Scenario) *run {
+	r := &run{fc: fc, sc: sc, lg: &vt.Log{StopAfter: "return"}, conn: vt.NewConn()}
+	r.conn.React = r.react
+	r.conn.Starve = r.starve
+	if sc.Fam == "real" && sc.Role == "server" {
+		r.startClient()
+	}
+	return r
+}
+
+// exec runs the session to its end.
+func (r *run) exec(neg xmpp.Negotiator) {
+	sc := r.sc
 	var s *xmpp.Session
 	var err error
 	var panicked interface{}
@@ -703,7 +738,102 @@ func runScenario(sc Scenario) (evs []vt.Ev, starved bool) {
 	}
 	r.lg.Add(ev)
 	r.conn.Close()
+}
+
+func runScenario(sc Scenario) (evs []vt.Ev, starved bool) {
+	fc := &featCtx{script: sc.Script}
+	r := newRun(fc, sc)
+	fc.cur = r
+	r.exec(buildFeature(fc, sc))
 	return r.lg.Events(), r.starved
+}
+
+// runShared negotiates the sessions of sc with ONE feature value and one Negotiator. Every
+// session runs in a goroutine of its own, but only one of them at a time: a session parks at
+// every read on an empty transport and goes on when the schedule says so.
+func runShared(sc Scenario) [][]vt.Ev {
+	base := sc.Sessions[0]
+	fc := &featCtx{script: base.Script}
+	neg := buildFeature(fc, base)
+	n := len(sc.Sessions)
+	type sess struct {
+		r       *run
+		sig     chan string
+		resume  chan struct{}
+		started bool
+		done    bool
+		parks   int
+	}
+	ss := make([]*sess, n)
+	for i := range ss {
+		x := &sess{r: newRun(fc, sc.Sessions[i]), sig: make(chan string, 1), resume: make(chan struct{})}
+		x.r.park = func() {
+			x.sig <- "parked"
+			<-x.resume
+		}
+		ss[i] = x
+	}
+	// step lets session i run until it parks again or returns
+	step := func(i int) {
+		x := ss[i]
+		if x.done {
+			return
+		}
+		fc.cur = x.r
+		if !x.started {
+			x.started = true
+			go func() {
+				x.r.exec(neg)
+				x.sig <- "done"
+			}()
+		} else {
+			x.resume <- struct{}{}
+		}
+		select {
+		case m := <-x.sig:
+			x.done = m == "done"
+			x.parks++
+		case <-time.After(30 * time.Second):
+			fmt.Println("STALL: a session of a shared run neither read nor returned for 30s")
+			os.Exit(3)
+		}
+	}
+	finish := func(i int) {
+		for !ss[i].done {
+			step(i)
+		}
+	}
+	switch sc.Sched {
+	case "alt":
+		for again := true; again; {
+			again = false
+			for i := range ss {
+				if !ss[i].done {
+					step(i)
+					again = true
+				}
+			}
+		}
+	case "nest":
+		// session 1 up to the read that asks for its first SASL item (client: after the
+		// peer's header and features; server: after its own features), then the others
+		for k := 0; k < 2 && !ss[0].done; k++ {
+			step(0)
+		}
+		for i := 1; i < n; i++ {
+			finish(i)
+		}
+		finish(0)
+	default:
+		for i := range ss {
+			finish(i)
+		}
+	}
+	out := make([][]vt.Ev, n)
+	for i, x := range ss {
+		out[i] = x.r.lg.Events()
+	}
+	return out
 }
 
 // ascii keeps error texts harmless for the trace file (TLC parses it as JSON).
@@ -727,6 +857,194 @@ type out struct {
 	samples  []interface{}
 	authn    int
 	byFam    map[string]int
+
+	keep       bool              // remember the runs for the shared family
+	solo       []soloRun         // every run of the script / real families, in order
+	soloEvs    map[string]string // scenario -> its events when negotiated alone (normalised)
+	mismatches []interface{}
+	sharedRuns int
+	sharedDiff int
+}
+
+type soloRun struct {
+	sc  Scenario
+	evs []vt.Ev
+}
+
+// norm is what two runs of the same scenario have to agree on: every event, without the
+// texts of errors.
+func norm(evs []vt.Ev) string {
+	l := make([]vt.Ev, len(evs))
+	for i, e := range evs {
+		c := vt.Ev{}
+		for k, v := range e {
+			if k != "err" && k != "msg" {
+				c[k] = v
+			}
+		}
+		l[i] = c
+	}
+	b, _ := json.Marshal(l)
+	return string(b)
+}
+
+func fill(sc *Scenario) {
+	if sc.Adv == nil {
+		sc.Adv = []string{}
+	}
+	if sc.Peer == nil {
+		sc.Peer = []Item{}
+	}
+	if sc.Script == nil {
+		sc.Script = []StepOut{}
+	}
+	if sc.Local == nil {
+		sc.Local = []string{}
+	}
+}
+
+func scKey(sc Scenario) string {
+	fill(&sc)
+	b, _ := json.Marshal(sc)
+	return string(b)
+}
+
+// shared runs one scenario of the shared family and compares every session with the same
+// session negotiated alone (a feature value of its own). Sessions negotiated one after the
+// other are written as ONE trace (sessions separated by "newsess": TrSASL's NewSession); a
+// session that behaves differently is also written on its own so that TLC says whether it is
+// still a behaviour of SASL.tla.
+func (o *out) shared(sc Scenario) {
+	for i := range sc.Sessions {
+		fill(&sc.Sessions[i])
+	}
+	fill(&sc)
+	var alone []string
+	for _, sub := range sc.Sessions {
+		k := scKey(sub)
+		if _, ok := o.soloEvs[k]; !ok {
+			evs, _ := runScenario(sub)
+			o.soloEvs[k] = norm(evs)
+		}
+		alone = append(alone, o.soloEvs[k])
+	}
+	if os.Getenv("SASL_SELFTEST_CORRUPT") == "1" {
+		// binding self-test: a reference run that lacks its last-but-one event
+		var l []vt.Ev
+		json.Unmarshal([]byte(alone[len(alone)-1]), &l)
+		if len(l) > 2 {
+			l = append(l[:len(l)-2], l[len(l)-1])
+		}
+		alone[len(alone)-1] = norm(l)
+	}
+	got := runShared(sc)
+	o.sharedRuns++
+	o.runs++
+	o.byFam["shared/"+sc.Sessions[0].Role+"/"+sc.Sched]++
+	differs := false
+	for i, evs := range got {
+		if norm(evs) == alone[i] {
+			continue
+		}
+		differs = true
+		var want []vt.Ev
+		json.Unmarshal([]byte(alone[i]), &want)
+		o.mismatches = append(o.mismatches, vt.Ev{"scenario": sc, "session": i + 1,
+			"what":   fmt.Sprintf("session %d of %d negotiated with one feature value (schedule %s) does not behave as it does alone", i+1, len(got), sc.Sched),
+			"shared": evs, "alone": want})
+		sub := sc.Sessions[i]
+		o.tw.Write(vt.Ev{"role": sub.Role, "local": sub.Local, "adv": sub.Adv}, evs)
+		o.tw.Meta(sc)
+	}
+	if differs {
+		o.sharedDiff++
+	}
+	if sc.Sched == "seq" || differs {
+		var all []vt.Ev
+		for i, evs := range got {
+			if i > 0 {
+				all = append(all, vt.Ev{"ev": "newsess", "adv": sc.Sessions[i].Adv})
+			}
+			all = append(all, evs...)
+		}
+		if sc.Sched == "seq" {
+			first := sc.Sessions[0]
+			o.tw.Write(vt.Ev{"role": first.Role, "local": first.Local, "adv": first.Adv}, all)
+			o.tw.Meta(sc)
+		}
+	}
+}
+
+// sharedPairs: for every feature value (role, family, mechanisms, script) of the runs made so
+// far, a few first sessions (one that authenticates, one that leaves in the middle of an
+// exchange, one whose mechanism failed / was refused) x every stride-th run as the second
+// session, schedules in rotation (all of them with allScheds).
+func (o *out) sharedPairs(stride, offset int, allScheds bool, tick func()) {
+	groups := map[string][]int{}
+	var order []string
+	for i, r := range o.solo {
+		g := r.sc
+		g.Adv, g.Peer, g.Dev, g.PwOK = nil, nil, "", false
+		k := scKey(g)
+		if _, ok := groups[k]; !ok {
+			order = append(order, k)
+		}
+		groups[k] = append(groups[k], i)
+	}
+	lastStep := func(evs []vt.Ev) vt.Ev {
+		var l vt.Ev
+		for _, e := range evs {
+			if e["ev"] == "step" {
+				l = e
+			}
+		}
+		return l
+	}
+	authn := func(evs []vt.Ev) bool { a, _ := evs[len(evs)-1]["authn"].(bool); return a }
+	scheds := []string{"seq", "alt", "nest"}
+	n := 0
+	for _, k := range order {
+		idx := groups[k]
+		firsts := []int{-1, -1, -1}
+		for _, i := range idx {
+			evs := o.solo[i].evs
+			l := lastStep(evs)
+			switch {
+			case authn(evs):
+				if firsts[0] < 0 {
+					firsts[0] = i
+				}
+			case l != nil && l["more"] == true:
+				if firsts[1] < 0 {
+					firsts[1] = i
+				}
+			case l != nil && l["err"] == true:
+				if firsts[2] < 0 {
+					firsts[2] = i
+				}
+			}
+		}
+		for _, a := range firsts {
+			if a < 0 {
+				continue
+			}
+			for _, b := range idx {
+				n++
+				if (n+offset)%stride != 0 {
+					continue
+				}
+				for si, sched := range scheds {
+					if !allScheds && si != (n/stride)%len(scheds) {
+						continue
+					}
+					base := o.solo[a].sc
+					o.shared(Scenario{Fam: "shared", Role: base.Role, Local: base.Local, Sched: sched,
+						Sessions: []Scenario{o.solo[a].sc, o.solo[b].sc}})
+				}
+			}
+			tick()
+		}
+	}
 }
 
 func (o *out) emit(sc Scenario, evs []vt.Ev) {
@@ -747,6 +1065,10 @@ func (o *out) emit(sc Scenario, evs []vt.Ev) {
 	}
 	t := o.tw.Write(vt.Ev{"role": sc.Role, "local": sc.Local, "adv": sc.Adv}, evs)
 	o.tw.Meta(sc)
+	if o.keep {
+		o.solo = append(o.solo, soloRun{sc: sc, evs: evs})
+		o.soloEvs[scKey(sc)] = norm(evs)
+	}
 	last := evs[len(evs)-1]
 	if a, _ := last["authn"].(bool); a {
 		o.authn++
@@ -866,7 +1188,7 @@ func main() {
 	if err != nil {
 		panic(err)
 	}
-	o := &out{tw: tw, distinct: map[string]bool{}, byFam: map[string]int{}}
+	o := &out{tw: tw, distinct: map[string]bool{}, byFam: map[string]int{}, soloEvs: map[string]string{}}
 	switch os.Args[1] {
 	case "run":
 		f, err := os.Open(os.Args[3])
@@ -883,6 +1205,10 @@ func main() {
 			if err := json.Unmarshal(sc.Bytes(), &s); err != nil {
 				panic(err)
 			}
+			if s.Fam == "shared" {
+				o.shared(s)
+				continue
+			}
 			evs, _ := runScenario(s)
 			o.emit(s, evs)
 		}
@@ -891,6 +1217,7 @@ func main() {
 		cdepth := envInt("SASL_CDEPTH", 4)
 		sdepth := envInt("SASL_SDEPTH", 3)
 		thorough := os.Getenv("VERIF_TIER") == "thorough"
+		o.keep = true
 		// (1) mechanism selection: every pair of preference lists, shortest exchange
 		for _, loc := range pool.Local {
 			for _, adv := range pool.Adv {
@@ -939,6 +1266,11 @@ func main() {
 			o.emit(sc, evs)
 			tick()
 		}
+		// (5) one feature value, two sessions
+		o.keep = false
+		if stride := envInt("SASL_SHARED_STRIDE", 4); stride > 0 {
+			o.sharedPairs(stride, envInt("VERIF_SEED", 1), thorough, tick)
+		}
 	default:
 		os.Exit(2)
 	}
@@ -946,6 +1278,6 @@ func main() {
 		panic(err)
 	}
 	tr, ev := tw.Counts()
-	vt.Summary{Traces: tr, Events: ev, Evaluations: o.runs, Distinct: len(o.distinct), Samples: o.samples,
-		Extra: map[string]interface{}{"authn": o.authn, "by_family": o.byFam}}.Print()
+	vt.Summary{Traces: tr, Events: ev, Evaluations: o.runs, Distinct: len(o.distinct), Samples: o.samples, Mismatches: o.mismatches,
+		Extra: map[string]interface{}{"authn": o.authn, "by_family": o.byFam, "shared_runs": o.sharedRuns, "shared_runs_differing": o.sharedDiff}}.Print()
 }
